@@ -357,7 +357,11 @@ pub fn adjust_c10(case: Case) -> Case {
         let budget = match case.mode {
             // free mode: only termination is asserted, with a deliberately huge budget
             Mode::Free { .. } => FREE_BUDGET,
-            Mode::Sched(_) => (case.input.len() + c * (tape + 4 * t * c + 64)).min(u32::MAX as usize) as u32,
+            Mode::Sched(_) => case
+                .input
+                .len()
+                .saturating_add(c.saturating_mul(tape.saturating_add(4usize.saturating_mul(t).saturating_mul(c)).saturating_add(64)))
+                .min(u32::MAX as usize) as u32,
         };
         case.source = Source::Endless { budget };
     }
@@ -551,7 +555,7 @@ fn check_c10(case: &Case) -> Verdict {
             }
         }
         let max_chunk = run.map(|x| x.workers.iter().map(|w| w.1).max().unwrap_or(1)).unwrap_or(1);
-        let ask_bound = t_res * max_chunk * (1 + EXTRA_CHUNKS);
+        let ask_bound = t_res.saturating_mul(max_chunk).saturating_mul(1 + EXTRA_CHUNKS);
         if case.source.is_instrumented_iter() && asked_after > ask_bound {
             v.fail = Some(Verdict::fail(
                 format!("after a match was known the source iterator was asked {asked_after} more times (bound {ask_bound} = threads x chunk x {})", 1 + EXTRA_CHUNKS),
@@ -586,7 +590,7 @@ fn check_c10(case: &Case) -> Verdict {
     let evaluators_before: std::collections::BTreeSet<u16> = r.log[from..t_star].iter().filter(|e| e.kind.is_closure() && e.tid != 0).map(|e| e.tid).collect();
     let (_, c_res) = resolved_threads_chunk(case);
     let match_pos = lazy.found.map(|x| x.1).unwrap_or(0);
-    v.nontrivial = match_pos >= 2 * c_res && evaluators_before.len() >= 2;
+    v.nontrivial = match_pos >= c_res.saturating_mul(2) && evaluators_before.len() >= 2;
     if endless {
         v.label("endless source");
     }
